@@ -47,6 +47,10 @@ func (f *And) Call(s *slip.Scope, args slip.List, depth int) (result slip.Object
 		if result = slip.EvalArg(s, args, i, d2); result == nil {
 			break
 		}
+		switch result.(type) {
+		case *slip.ReturnResult, *GoTo:
+			return result
+		}
 	}
 	return
 }
